@@ -27,6 +27,7 @@ from __future__ import annotations
 
 import ast
 import builtins
+import importlib.machinery
 import io
 import re
 import sys
@@ -53,6 +54,9 @@ VARS = ["v", "res", "tmp", "item"]
 # long NEW paths (25-80 characters): the renamed module no longer fits in front of a fixed alignment column
 LONGTOPS = ["zsome_long_package", "zanother_rather_long_root", "zlängeres_paket"]
 LONGSUBS = ["zsubpackage_with_long_name", "zmodule_number_two", "zyet_another_component", "zlong_子包_name"]
+# the package a program with relative imports is a module of (disjoint from every other pool)
+HOSTS = ["hpkg", "hostp", "hôte"]
+HOSTSUBS = ["hs1", "hs2", "hsé"]
 
 
 def in_alphabet(s: str) -> bool:
@@ -60,11 +64,13 @@ def in_alphabet(s: str) -> bool:
     return all(ord(c) < 0x180 or 0x370 <= ord(c) <= 0x3FF or 0x4E00 <= ord(c) <= 0x9FFF for c in s)
 
 
-for _pool in (TOPS, SUBS, MEMBERS, NEWTOPS, NEWSUBS, ALIASES, LONGTOPS, LONGSUBS):
+for _pool in (TOPS, SUBS, MEMBERS, NEWTOPS, NEWSUBS, ALIASES, LONGTOPS, LONGSUBS, HOSTS, HOSTSUBS):
     for _n in _pool:
         assert _n.isidentifier() and unicodedata.normalize("NFKC", _n) == _n and re.fullmatch(r"\w+", _n) \
             and in_alphabet(_n), _n
 assert not (set(NEWTOPS) | set(NEWSUBS) | set(LONGTOPS) | set(LONGSUBS)) & (set(TOPS) | set(SUBS) | set(MEMBERS) | set(ALIASES))
+assert not (set(HOSTS) | set(HOSTSUBS)) & (set(NEWTOPS) | set(NEWSUBS) | set(LONGTOPS) | set(LONGSUBS) | set(TOPS) | set(SUBS)
+                                           | set(MEMBERS) | set(ALIASES))
 
 PARAM_CHOICES = dict(
     align_imports=[True, False, 24, 32, 40, [32], [16, 32], [8, 24, 40]],
@@ -114,6 +120,44 @@ def map_in_odomain(entries) -> bool:
     return True
 
 
+def map_in_chain_domain(entries) -> bool:
+    """Chained maps: as `map_in_odomain`, except that the NEW of an entry may be a dotted prefix of (or equal
+    to) the OLD of ANOTHER entry ({a: n, n.x: m}: whatever `a.x` was ends up as `m`), and NEWs may be nested in
+    one another.  Any other relation between a NEW and another entry's OLD stays excluded."""
+    olds = [o for o, _ in entries]
+    news = [n for _, n in entries]
+    if len(set(olds)) != len(olds) or len(set(news)) != len(news):
+        return False
+    for i, (o, n) in enumerate(entries):
+        if o == n or not _dotted_ident(o) or not _dotted_ident(n):
+            return False
+        if under(o, n):
+            return False
+        for j, (o2, n2) in enumerate(entries):
+            if i != j and related(n, o2) and not under(o2, n):
+                return False
+    return True
+
+
+def pulled_back(entries):
+    """For chained maps: the entries whose OLD lies under another entry's NEW, expressed over the ORIGINAL names
+    ({a: n, n.x: m} -> [a.x, m]); the program-domain conditions must hold for these as well (a program reading
+    `a.x.f` through `import a` is outside the domain exactly as it is for the map {a.x: m})."""
+    out = []
+    for _ in range(3):
+        newly = []
+        for o, n in [list(e) for e in entries] + out:
+            for o1, n1 in entries:
+                if [o, n] != [o1, n1] and under(o, n1):
+                    e = [o1 + o[len(n1):], n]
+                    if e not in out and e not in [list(x) for x in entries] and e not in newly:
+                        newly.append(e)
+        if not newly:
+            break
+        out += newly
+    return out
+
+
 def _dotted_ident(s):
     import keyword
     return bool(s) and all(p.isidentifier() and not keyword.iskeyword(p) and re.fullmatch(r"\w+", p)
@@ -139,102 +183,202 @@ class _Member:
         return "tag:" + self._n
 
 
-class Universe:
-    """Install / remove the synthetic modules.  Use as a context manager."""
+class _TableFinder:
+    """meta-path finder/loader of the lazy universe: `import NAME` yields the object the table gives for NAME
+    (the very same object for a NEW name and its OLD name); the import machinery itself then binds the
+    sub-module as an attribute of its parent, as for any real package."""
 
-    def __init__(self, mods, entries):
+    def __init__(self, table):
+        self.table = table
+
+    def find_spec(self, name, path=None, target=None):
+        if name in self.table:
+            return importlib.machinery.ModuleSpec(name, self, is_package=True)
+        return None
+
+    def create_module(self, spec):
+        return self.table[spec.name]
+
+    def exec_module(self, module):
+        # one object is imported under several names: leave no trace of the name used (a module's repr shows
+        # its __spec__ / __loader__), so that the object prints the same whichever path the program imported
+        for attr in ("__spec__", "__loader__"):
+            try:
+                setattr(module, attr, None)
+            except Exception:
+                pass
+
+
+class Universe:
+    """Install / remove the synthetic modules.  Use as a context manager.
+
+    The table `name -> object` holds every real module path, every NEW (for the very object its OLD denotes -
+    OLD being resolved through the aliases of the other entries too, so that chained maps {a: n, n.x: m} get
+    m == n.x == a.x), every NEW.suffix and the synthetic ancestor packages of the NEWs.
+
+    lazy (default): nothing is pre-registered in `sys.modules`; a meta-path finder serves the table.  The real
+    tree is linked eagerly (a real package exposes its real sub-modules as soon as it is imported, as a package
+    whose __init__ imports them), but a NEW-side link `parent.attr -> module` exists only once some import
+    statement has imported that very path: `import n.util.helper` does NOT make `n.helpers` available.
+    Member (non-module) aliases are plain attributes of their parent from the start.
+    eager (lazy=False): everything registered in sys.modules and linked up front (used for the self-check)."""
+
+    def __init__(self, mods, entries, lazy=True):
         self.mods = mods
         self.entries = entries
+        self.lazy = lazy
         self.added = []
         self.saved = {}
+        self.finder = None
 
-    def _reg(self, name, mod):
-        if name in sys.modules and name not in self.added:
-            self.saved[name] = sys.modules[name]
-        sys.modules[name] = mod
-        if name not in self.added:
-            self.added.append(name)
-
-    def __enter__(self):
-        real = {}
+    def _build(self):
+        real, table, links = {}, {}, []
+        realpath = {}
+        self.reallinks = set()     # (id(parent module), attribute) of the real tree: never un-linked
         for path in sorted(self.mods, key=lambda p: p.count(".")):
             m = types.ModuleType(path)
             m.__path__ = []
             m.__package__ = path
             real[path] = m
+            realpath[id(m)] = path
             for mem in self.mods[path]:
                 setattr(m, mem, _Member(path + "." + mem))
             if "." in path:
                 par, last = path.rsplit(".", 1)
                 setattr(real[par], last, m)
-            self._reg(path, m)
-        self.real = real
+                self.reallinks.add((id(real[par]), last))
+            table[path] = m
+        self.real, self.table, self.links = real, table, links
 
-        def resolve(path):
+        def denote(path):
+            """the object `path` denotes: longest prefix the table knows, then attribute access"""
             parts = path.split(".")
-            if parts[0] not in real:
-                return None
-            obj = real[parts[0]]
-            for p in parts[1:]:
-                if not hasattr(obj, p):
-                    return None
-                obj = getattr(obj, p)
-            return obj
+            for i in range(len(parts), 0, -1):
+                pre = ".".join(parts[:i])
+                if pre in table:
+                    obj = table[pre]
+                    for p in parts[i:]:
+                        if not hasattr(obj, p):
+                            return None
+                        obj = getattr(obj, p)
+                    return obj
+            return None
+        self.denote = denote
+
+        def link(parent, attr, obj):
+            setattr(parent, attr, obj)
+            links.append((parent, attr, obj))
 
         bound = []
-        # shorter NEW first: a NEW that is an ancestor of another NEW must be bound before it
-        for old, new in sorted(self.entries, key=lambda e: e[1].count(".")):
-            obj = real.get(old) or resolve(old)
-            if obj is None:
-                continue
-            nparts = new.split(".")
-            # ancestors of NEW
-            for i in range(1, len(nparts)):
-                anc = ".".join(nparts[:i])
-                if anc not in sys.modules or anc not in self.added:
-                    m = types.ModuleType(anc)
-                    m.__path__ = []
-                    self._reg(anc, m)
-                    if i > 1:
-                        setattr(sys.modules[".".join(nparts[:i - 1])], nparts[i - 1], m)
-            if len(nparts) > 1:
-                setattr(sys.modules[".".join(nparts[:-1])], nparts[-1], obj)
-            # NEW is registered for the very object OLD denotes, module or not: a deeper NEW of another entry
-            # (NEW.x) then finds this ancestor already bound and becomes an attribute of that same object,
-            # instead of a synthetic package replacing it.
-            self._reg(new, obj)
-            bound.append((old, new, obj))
-            if isinstance(obj, types.ModuleType):
-                for p in list(real):
-                    if under(p, old):
-                        self._reg(new + p[len(old):], real[p])
+        # shorter NEW first: a NEW that is an ancestor of another NEW must be bound before it; an entry whose OLD
+        # is only reachable through another entry's NEW (a chain) waits until that one is bound
+        pending = sorted(self.entries, key=lambda e: e[1].count("."))
+        progress = True
+        while pending and progress:
+            progress = False
+            for e in list(pending):
+                old, new = e
+                obj = real.get(old)
+                if obj is None:
+                    obj = denote(old)
+                if obj is None:
+                    continue
+                pending.remove(e)
+                progress = True
+                nparts = new.split(".")
+                for i in range(1, len(nparts)):
+                    anc = ".".join(nparts[:i])
+                    if anc not in table:
+                        m = types.ModuleType(anc)
+                        m.__path__ = []
+                        table[anc] = m
+                        if i > 1:
+                            link(table[".".join(nparts[:i - 1])], nparts[i - 1], m)
+                if len(nparts) > 1:
+                    link(table[".".join(nparts[:-1])], nparts[-1], obj)
+                # NEW stands for the very object OLD denotes, module or not: a deeper NEW of another entry
+                # (NEW.x) then finds this ancestor already bound and becomes an attribute of that same object,
+                # instead of a synthetic package replacing it.
+                table[new] = obj
+                bound.append((old, new, obj))
+                if isinstance(obj, types.ModuleType) and id(obj) in realpath:
+                    rp = realpath[id(obj)]
+                    for p in list(real):
+                        if under(p, rp):
+                            table[new + p[len(rp):]] = real[p]
+                break       # re-sort-free restart: keeps "shorter NEW first" among the entries that are ready
+        # an object has every attribute under each of its names: NEW.x (x linked to the object NEW stands for) is
+        # also OLD.x - `from NEW import x` makes the import machinery ask for `<the object's __name__>.x`
+        for _ in range(4):
+            changed = False
+            for parent, attr, obj in list(links):
+                for name in [k for k, v in table.items() if v is parent]:
+                    q = name + "." + attr
+                    if q in table:
+                        continue
+                    table[q] = obj
+                    changed = True
+                    if isinstance(obj, types.ModuleType) and id(obj) in realpath:
+                        rp = realpath[id(obj)]
+                        for p2 in list(real):
+                            if under(p2, rp):
+                                table.setdefault(q + p2[len(rp):], real[p2])
+            if not changed:
+                break
         # self-check: every NEW must denote exactly the object its OLD denotes, by attribute access from the
-        # top-level module as well as by sys.modules; otherwise the oracle must not use this universe.
+        # top-level module as well as by name; otherwise the oracle must not use this universe.
         self.consistent = True
-        for old, new, obj in bound:
-            nparts = new.split(".")
-            cur = sys.modules.get(nparts[0])
-            for p in nparts[1:]:
+
+        def walk(parts):
+            cur = table.get(parts[0])
+            for p in parts[1:]:
                 cur = getattr(cur, p, None) if cur is not None else None
-            if cur is not obj or sys.modules.get(new) is not obj or resolve(old) is not obj:
+            return cur
+        for old, new, obj in bound:
+            if walk(new.split(".")) is not obj or table.get(new) is not obj or denote(old) is not obj:
                 self.consistent = False
             # ... and so must every NEW.suffix (e.g. {a: n, a.c: n.a} with a real module a.a cannot be satisfied)
-            if isinstance(obj, types.ModuleType):
+            if isinstance(obj, types.ModuleType) and id(obj) in realpath:
+                rp = realpath[id(obj)]
                 for p in real:
-                    if under(p, old):
-                        q = (new + p[len(old):]).split(".")
-                        cur = sys.modules.get(q[0])
-                        for x in q[1:]:
-                            cur = getattr(cur, x, None) if cur is not None else None
-                        if cur is not real[p] or sys.modules.get(".".join(q)) is not real[p]:
+                    if under(p, rp):
+                        q = new + p[len(rp):]
+                        if walk(q.split(".")) is not real[p] or table.get(q) is not real[p]:
                             self.consistent = False
         # the real tree must be intact (binding a NEW must not have overwritten a real attribute)
         for p in real:
-            if resolve(p) is not real[p] or sys.modules.get(p) is not real[p]:
+            if walk(p.split(".")) is not real[p] or table.get(p) is not real[p]:
                 self.consistent = False
+        self.bound = bound
+
+    def __enter__(self):
+        self._build()
+        for name in self.table:
+            if name in sys.modules:
+                self.saved[name] = sys.modules.pop(name)
+        self.added = list(self.table)
+        if self.lazy:
+            if self.consistent:
+                # un-link the NEW-side module attributes: the import machinery re-creates each of them when (and
+                # only when) the program imports that path
+                for parent, attr, obj in self.links:
+                    if isinstance(obj, types.ModuleType) and parent.__dict__.get(attr) is obj \
+                            and (id(parent), attr) not in self.reallinks:
+                        delattr(parent, attr)
+            self.finder = _TableFinder(self.table)
+            sys.meta_path.insert(0, self.finder)
+        else:
+            for name, obj in self.table.items():
+                sys.modules[name] = obj
         return self
 
     def __exit__(self, *exc):
+        if self.finder is not None:
+            try:
+                sys.meta_path.remove(self.finder)
+            except ValueError:
+                pass
+            self.finder = None
         for name in self.added:
             sys.modules.pop(name, None)
         for name, m in self.saved.items():
@@ -242,8 +386,9 @@ class Universe:
         return False
 
 
-def run_program(text):
-    """Execute `text`; return the trace.  The universe must be installed."""
+def run_program(text, pkg=None):
+    """Execute `text`; return the trace.  The universe must be installed.  `pkg`: the package the program is a
+    module of (its relative imports are resolved against it)."""
     trace = []
 
     def rec(*a, **k):
@@ -252,6 +397,9 @@ def run_program(text):
     b = dict(builtins.__dict__)
     b["print"] = rec
     g = {"__builtins__": b, "__name__": "__c18__"}
+    if pkg:
+        g["__name__"] = pkg + ".c18main"
+        g["__package__"] = pkg
     try:
         code = compile(text, "<c18>", "exec", dont_inherit=True)
     except SyntaxError as e:
@@ -264,13 +412,18 @@ def run_program(text):
     return trace
 
 
-def run_both(mods, entries, text_in, text_out):
-    """(trace of input, trace of output); (None, None) if the aliasing universe could not be built consistently."""
+def run_both(mods, entries, text_in, text_out, pkg=None):
+    """(trace of input, trace of output); (None, None) if the aliasing universe could not be built consistently.
+    Each program runs in its own freshly built (lazy) universe: what one program imported is not there for the
+    other."""
     with Universe(mods, entries) as u:
         if not u.consistent:
             return None, None
-        t_in = run_program(text_in)
-        t_out = run_program(text_out) if text_out is not None else None
+        t_in = run_program(text_in, pkg)
+    t_out = None
+    if text_out is not None:
+        with Universe(mods, entries) as u:
+            t_out = run_program(text_out, pkg)
     return t_in, t_out
 
 
@@ -329,8 +482,8 @@ def domain_problems(text, entries):
     for node in tree.body:
         if isinstance(node, (ast.Import, ast.ImportFrom)):
             imp_lines.update(range(node.lineno, node.end_lineno + 1))
-            if isinstance(node, ast.ImportFrom) and node.level:
-                probs.append("relative import")
+            # (a relative import is inside the domain: its dotted path begins with a dot, so it is under no OLD;
+            #  a body word OLD that refers to the name it binds is rejected below, as for any non-OLD binding)
     for node in ast.walk(tree):
         if isinstance(node, (ast.Import, ast.ImportFrom)):
             imp_lines.update(range(node.lineno, node.end_lineno + 1))
@@ -423,6 +576,48 @@ def domain_problems(text, entries):
         if not any(under(l, o) for o, _ in entries) and l.split(".")[0] in news_first:
             probs.append("NEW collides with an existing local name")
     return probs
+
+
+def reads_through_package_binding(text, entries):
+    """Known finding C18-D6: `import a.b.c` (plain, dotted, under an OLD whose NEW has another top-level package)
+    is the only import that binds `a`, and the body reads `a.<something not under any OLD>` through that
+    binding: after the rename nothing binds `a` any more."""
+    try:
+        tree = ast.parse(text)
+        imports = toplevel_imports(text) + [(f, l) for f, l, _ in nested_imports(text)]
+    except SyntaxError:
+        return False
+    moved = [(f, l) for f, l in imports if f == l and "." in l and any(
+        under(f, o) and rename(f, o, n).split(".")[0] != f.split(".")[0] for o, n in entries)]
+    if not moved:
+        return False
+    kept = {l.split(".")[0] for f, l in imports if f == l and not any(under(f, o) for o, _ in entries)} | \
+        {l for f, l in imports if "." not in l and f != l}
+    imp_lines = set()
+    for node in ast.walk(tree):
+        if isinstance(node, (ast.Import, ast.ImportFrom)):
+            imp_lines.update(range(node.lineno, node.end_lineno + 1))
+    src = text if text.endswith("\n") else text + "\n"
+    toks = [t for t in tokenize.generate_tokens(io.StringIO(src).readline)
+            if t.type not in (tokenize.NL, tokenize.NEWLINE, tokenize.INDENT, tokenize.DEDENT, tokenize.ENDMARKER)]
+    olds = [o.split(".") for o, _ in entries]
+    i = 0
+    while i < len(toks):
+        t = toks[i]
+        if t.type != tokenize.NAME or t.start[0] in imp_lines or (i > 0 and toks[i - 1].string == "."):
+            i += 1
+            continue
+        chain = [t.string]
+        j = i + 1
+        while j + 1 < len(toks) and toks[j].string == "." and toks[j + 1].type == tokenize.NAME:
+            chain.append(toks[j + 1].string)
+            j += 2
+        for f, l in moved:
+            c0 = l.split(".")[0]
+            if chain[0] == c0 and c0 not in kept and not any(chain[:len(oc)] == oc for oc in olds):
+                return True
+        i = j
+    return False
 
 
 # ----------------------------------------------------------------------------
@@ -599,7 +794,10 @@ def gen_map(rng, mods, add):
     return entries
 
 
-def gen_program(rng, mods, entries, nested_imports=False):
+def gen_program(rng, mods, entries, nested_imports=False, prefer=None, rel=None):
+    """prefer: import targets to pick more often (chained maps: the paths the later entry applies to).
+    rel: {pkg, add} - the program is a module of package `pkg` and gets relative imports of sibling modules
+    whose names coincide with OLD / a path under OLD / the first component of OLD / a character trap of OLD."""
     olds = [o for o, _ in entries]
     modpaths = sorted(mods)
     members = [m + "." + x for m in modpaths for x in mods[m]]
@@ -612,7 +810,9 @@ def gen_program(rng, mods, entries, nested_imports=False):
     star_done = []
     for _ in range(rng.randint(1, 6)):
         r = rng.random()
-        if und and r < 0.55:
+        if prefer and rng.random() < 0.5:
+            tgt = rng.choice(prefer)
+        elif und and r < 0.55:
             tgt = rng.choice(und)
         elif trap and r < 0.85:
             tgt = rng.choice(trap)
@@ -662,6 +862,47 @@ def gen_program(rng, mods, entries, nested_imports=False):
         else:
             imports.append((tgt, "from", tgt.rsplit(".", 1)[1]))
 
+    # relative imports of sibling modules named like OLD (never under OLD: their dotted path begins with a dot)
+    rel_stmts = []
+    if rel:
+        pparts = rel["pkg"].split(".")
+        for _ in range(rng.randint(1, 3)):
+            level = rng.randint(1, len(pparts))
+            base = ".".join(pparts[:len(pparts) - level + 1])
+            o = rng.choice(olds)
+            r = rng.random()
+            if r < 0.45:
+                comp = o
+            elif r < 0.65:
+                comp = o + "." + rng.choice(SUBS)
+            elif r < 0.85:
+                comp = o.split(".")[0]
+            else:
+                comp = rng.choice(char_traps(o))
+            tgt = base + "." + comp
+            if any(tgt == m + "." + x for m in mods for x in mods[m]):
+                continue
+            rel["add"](tgt)
+            dots = "." * level
+            r = rng.random()
+            alias = rng.choice(ALIASES) if rng.random() < 0.45 else None
+            if r < 0.5:
+                mem = rng.choice(mods[tgt])
+                full, name, frm = tgt + "." + mem, mem, dots + comp
+            elif "." in comp:
+                full, name, frm = tgt, comp.rsplit(".", 1)[1], dots + comp.rsplit(".", 1)[0]
+            else:
+                full, name, frm = tgt, comp, dots
+            local = alias or name
+            if local in singles or local in plains_first or any(l.split(".")[0] == local for _, _, l in imports):
+                continue
+            singles.add(local)
+            # an un-aliased local name that is the first word of some OLD is bound but never read: a body word
+            # OLD must refer to an import of OLD (program domain)
+            form = "relnouse" if any(local == x.split(".")[0] for x in olds) else "rel"
+            rel_stmts.append(("from %s import %s%s" % (frm, name, " as " + alias if alias else ""),
+                              [(full, form, local)]))
+
     def stmt_of(group):
         # group: list of imports sharing a statement
         t0, f0, l0 = group[0]
@@ -701,6 +942,8 @@ def gen_program(rng, mods, entries, nested_imports=False):
                     g.append(other)
                     pool.remove(other)
         stmts.append((stmt_of(g), g))
+    for rs in rel_stmts:
+        stmts.insert(rng.randint(0, len(stmts)), rs)
 
     def ref_of(tgt, local):
         """An expression reading something through `local`."""
@@ -762,6 +1005,8 @@ def gen_program(rng, mods, entries, nested_imports=False):
         (lines_top if idx < split_at else lines_mid).append(s)
     for idx, (s, g) in enumerate(stmts):
         for tgt, form, local in g:
+            if form == "relnouse":
+                continue
             for _ in range(rng.randint(0, 3) if len(imports) > 1 else rng.randint(1, 3)):
                 if form == "star":
                     # a star-imported member is read by its bare name
@@ -825,7 +1070,8 @@ def gen_params(rng):
 
 
 _ALL_POOLS = dict(TOPS=list(TOPS), SUBS=list(SUBS), MEMBERS=list(MEMBERS), NEWTOPS=list(NEWTOPS),
-                  NEWSUBS=list(NEWSUBS), ALIASES=list(ALIASES), LONGTOPS=list(LONGTOPS), LONGSUBS=list(LONGSUBS))
+                  NEWSUBS=list(NEWSUBS), ALIASES=list(ALIASES), LONGTOPS=list(LONGTOPS), LONGSUBS=list(LONGSUBS),
+                  HOSTS=list(HOSTS), HOSTSUBS=list(HOSTSUBS))
 
 
 def _set_pools(ascii_only):
@@ -834,32 +1080,179 @@ def _set_pools(ascii_only):
         g[k] = [x for x in v if x.isascii()] if ascii_only else list(v)
 
 
-def gen_odomain_case(rng, mode=None):
+def gen_odomain_case(rng, mode=None, chain=None, rel=None):
     # 40% of the cases draw from the ASCII halves of the pools only
     _set_pools(rng.random() < 0.4)
     try:
-        return _gen_odomain_case(rng, mode)
+        return _gen_odomain_case(rng, mode, chain=chain, rel=rel)
     finally:
         _set_pools(False)
 
 
-def _gen_odomain_case(rng, mode=None):
-    for _ in range(40):
-        mods, add = gen_universe(rng)
-        entries = gen_map(rng, mods, add)
-        if not map_in_odomain(entries):
+# ----------------------------------------------------------------------------
+# the bin/tidy-imports route
+# ----------------------------------------------------------------------------
+
+def import_stmt(full, local):
+    """source of an import statement binding `local` to `full`"""
+    if local == full:
+        return "import " + full
+    if "." not in full:
+        return "import %s as %s" % (full, local)
+    mod, name = full.rsplit(".", 1)
+    return "from %s import %s" % (mod, name) if name == local else "from %s import %s as %s" % (mod, name, local)
+
+
+def gen_tidy_case(rng):
+    """A file for `tidy-imports` plus an import database: the database knows names under their OLD paths and
+    (route canonical) declares the renames in __canonical_imports__; the file is an in-domain program from which
+    some import statements were REMOVED (tidy-imports adds them from the database), some are kept, some are
+    already written against NEW.  Route transform: the map is given with --transform, nothing is removed."""
+    _set_pools(rng.random() < 0.4)
+    try:
+        case = _gen_odomain_case(rng, mode="tidy", chain=False, rel=(rng.random() < 0.08))
+    finally:
+        _set_pools(False)
+    entries, text = case["map"], case["text"]
+    route = "canonical" if rng.random() < 0.8 else "transform"
+    case["route"] = route
+    tree = ast.parse(text)
+    lines = text.split("\n")
+    known, edits = [], []
+    for node in tree.body:
+        if not isinstance(node, (ast.Import, ast.ImportFrom)) or (isinstance(node, ast.ImportFrom) and node.level):
             continue
+        if any(a.name == "*" for a in node.names):
+            continue
+        if isinstance(node, ast.Import):
+            imps = [(a.name, a.asname or a.name) for a in node.names]
+        else:
+            imps = [(node.module + "." + a.name, a.asname or a.name) for a in node.names]
+        simple = all("." not in l for _, l in imps)
+        r = rng.random()
+        if route == "transform" or not simple or r < 0.4 or "import *" in text:
+            # (with a star import in the file tidy-imports cannot tell which names are missing)
+            if simple and rng.random() < 0.4:
+                known += [import_stmt(f, l) for f, l in imps]
+            continue
+        if r < 0.8 or any(under(n, o) for o, n in entries):
+            # (no "already written against NEW" variant when a NEW lies under its own OLD: that import would
+            #  be an import of OLD again)
+            # removed: tidy-imports finds the name in the database, under its OLD path
+            edits.append((node.lineno, node.end_lineno, []))
+            known += [import_stmt(f, l) for f, l in imps]
+        else:
+            # already written against NEW
+            new = []
+            for f, l in imps:
+                m = [(o, n) for o, n in entries if under(f, o)]
+                new.append(import_stmt(rename(f, m[0][0], m[0][1]), l) if m else import_stmt(f, l))
+            edits.append((node.lineno, node.end_lineno, new))
+            if rng.random() < 0.5:
+                known += [import_stmt(f, l) for f, l in imps]
+    for lo, hi, new in sorted(edits, reverse=True):
+        lines[lo - 1:hi] = new
+    case["file"] = "\n".join(lines)
+    case["known"] = list(dict.fromkeys(known))
+    if route == "canonical":
+        if len(entries) > 1 and rng.random() < 0.4:
+            case["dbsplit"] = [rng.randint(1, len(entries) - 1)]
+            if rng.random() < 0.5:
+                case["dbfiles"] = 2          # the two assignments live in two files of PYFLYBY_PATH
+        if rng.random() < 0.12:
+            # a mandatory import under OLD: tidy-imports adds it to every file
+            olds = [o for o, _ in entries]
+            und = [m + "." + x for m in sorted(case["mods"]) for x in case["mods"][m]
+                   if any(under(m + "." + x, o) for o in olds) and not m.split(".")[0] in HOSTS]
+            if und:
+                case["mandatory"] = [import_stmt(rng.choice(und), "hmand1")]
+    case["params"] = {}
+    return case
+
+
+def gen_chain_map(rng, mods, add):
+    """2-3 entries that chain: NEW of one entry is a dotted prefix of (or equal to) the OLD of another one, the
+    first hop usually crossing to another top-level package ({old: new, new.util.helper: new.helpers.helper},
+    {a.b: n, n: m.w}, {a: n, n.x.f: k.g}).  Returns (entries, the real paths the chained entry applies to)."""
+    paths = sorted(mods)
+    old1 = rng.choice(paths)
+    if rng.random() < 0.5:
+        old1 = old1.split(".")[0]
+    new1 = fresh_new(rng, mods, [old1])
+    below = [p for p in paths if under(p, old1)]
+    r = rng.random()
+    if r < 0.2:
+        suffix = ""
+    elif r < 0.85 and len(below) > 1:
+        suffix = rng.choice([p for p in below if p != old1])[len(old1):]
+    else:
+        m = rng.choice(below)
+        suffix = m[len(old1):] + "." + rng.choice(mods[m])          # a member
+    old2 = new1 + suffix
+    r = rng.random()
+    if r < 0.5 and suffix:
+        # a sibling path inside NEW_1's package (the re-organisation of the moved package)
+        new2 = ".".join([new1] + [rng.choice(NEWSUBS) for _ in range(rng.choice([1, 1, 2]))])
+        if rng.random() < 0.6:
+            new2 += "." + suffix.rsplit(".", 1)[1]
+    else:
+        new2 = fresh_new(rng, mods, [old1, new1])
+    entries = [[old1, new1], [old2, new2]]
+    prefer = [p for p in paths if under(p, old1 + suffix)] + \
+        [m + "." + x for m in paths for x in mods[m] if under(m + "." + x, old1 + suffix)]
+    if rng.random() < 0.3:
+        r = rng.random()
+        taken = [old1, new1, old2, new2]
+        if r < 0.5:
+            # a third hop
+            entries.append([new2, fresh_new(rng, mods, taken)])
+        else:
+            o3 = rng.choice(paths)
+            if o3 not in taken and not related(o3, old1):
+                entries.append([o3, fresh_new(rng, mods, taken)])
+    if rng.random() < 0.25:
+        rng.shuffle(entries)
+    return entries, prefer
+
+
+def gen_host_pkg(rng, add):
+    pkg = ".".join([rng.choice(HOSTS)] + rng.sample(HOSTSUBS, rng.choice([0, 1, 1, 2])))
+    add(pkg)
+    return pkg
+
+
+def _gen_odomain_case(rng, mode=None, chain=None, rel=None):
+    for _ in range(60):
+        mods, add = gen_universe(rng)
+        is_chain = (rng.random() < 0.1) if chain is None else chain
+        prefer = None
+        if is_chain:
+            entries, prefer = gen_chain_map(rng, mods, add)
+            if not map_in_chain_domain(entries) or map_in_odomain(entries):
+                continue
+            dom_entries = entries + pulled_back(entries)
+        else:
+            entries = gen_map(rng, mods, add)
+            if not map_in_odomain(entries):
+                continue
+            dom_entries = entries
+        is_rel = (rng.random() < 0.12) if rel is None else rel
+        relspec = dict(pkg=gen_host_pkg(rng, add), add=add) if is_rel else None
         for _ in range(6):
-            text = gen_program(rng, mods, entries)
-            if not domain_problems(text, entries):
+            text = gen_program(rng, mods, entries, prefer=prefer, rel=relspec)
+            if not domain_problems(text, dom_entries):
                 case = dict(map=entries, text=text, mods=mods, params=gen_params(rng),
                             mode=mode or rng.choice(["transform"] * 6 + ["canonical"] * 3), odomain=True)
+                if is_chain:
+                    case["chain"] = True
+                if relspec and re.search(r"^from \.", text, re.M):
+                    case["pkg"] = relspec["pkg"]
                 if case["mode"] == "canonical" and len(entries) > 1 and rng.random() < 0.4:
                     case["dbsplit"] = [rng.randint(1, len(entries) - 1)]
                 if case["mode"] == "canonical" and len(entries) > 1 and rng.random() < 0.15:
                     # one entry is forgotten by the database
                     case["forget"] = [rng.choice(entries)[0]]
-                if case["mode"] != "cli" and rng.random() < 0.15:
+                if case["mode"] not in ("cli", "tidy") and rng.random() < 0.15:
                     case["prior_calls"] = gen_prior_calls(rng, mods, entries, text, case["mode"])
                 return case
     raise RuntimeError("gen_c18: could not build an in-domain case")
